@@ -16,17 +16,18 @@ Full statement / proved / missing
   `UnitSafe` (Unit only as element type of zero-size collections, the shape inferred for empty arrays/hashes), all values:
   `asg false A B → inst B v → inst A v`.
 * `C01_sound_partial` — PROVED, unbounded (strong induction on the summed weight, one lemma per receiver rule): `C01_full`
-  restricted to the fragment `Ty.Frag` = hereditarily no `Iterable[..]`, no `Data`/`RichData` — i.e. for Any, Undef,
-  Default, Scalar, ScalarData, Numeric, Integer, Float, Boolean, Timespan, String (all three forms), Enum, Pattern, Regexp, Binary,
-  Collection, Array, Hash, Tuple, Struct, Variant, Optional, NotUndef, Sensitive, Object, arbitrarily nested, and `Type[T]` for `T` in
+  restricted to the fragment `Ty.Frag` = hereditarily no `Iterable[..]` — i.e. for Any, Undef, Default, Scalar, ScalarData, Numeric,
+  Integer, Float, Boolean, Timespan, String (all three forms), Enum, Pattern, Regexp, Binary, Collection, Array, Hash, Tuple, Struct,
+  Variant, Optional, NotUndef, Sensitive, Object, the built-in recursive aliases Data and RichData (as receivers and on the right-hand
+  side, through the specialised `asgToArr` / `asgToHash` members), arbitrarily nested, and `Type[T]` for `T` in
   the stage-1 fragment of transitivity (`Ty.TF`, see C03: soundness for `Type[..]` IS transitivity `X ⊒ Y ⊒ u`, and is obtained from
-  `C03_trans_partial`); types used as values are then well-formed members of `Ty.TF` (`Val.TyOK`).
+  `C03_trans_partial`); types used as values are then well-formed members of `Ty.TF`, and container lengths fit an int64 as Go's do
+  (`Val.TyOK`).
 * missing, and why:
   - `Type[T]` with Tuple / Struct / Data inside `T` (outside stage 1 of transitivity).  `Iterable`'s instance rule asks an assignability
     question about an INFERRED type and is genuinely unsound in the code: witnesses
     `C01_full_fails_iterable_elem` (inferred element type wider than any Variant member; known finding C01-iterable-inferred-elem)
     and `C01_full_fails_iterable_binary` (Iterable accepts Binary, whose values are not Iterable instances; C01-iterable-binary).
-  - `Data` / `RichData` (built-in recursive aliases): modelled and exercised by the correspondence run, not yet in the proof.
   - the exempt rule: `C01_sfh_witness` shows it is genuinely unsound when switched on (this is the stated exclusion, not a finding);
     the statement "sfh matters only where a Struct receives a Hash" is validated by the harness class `unsound-sfh`, not proved.
   - second-tier types (Callable, Runtime, Iterator, Like, Init, TypeReference, Timestamp, SemVer, URI) and user recursive aliases:
@@ -61,9 +62,10 @@ def exV : Val := .array [.int 2, .str "a", .typ (.int ⟨0, 5⟩)]
 example (cfg : Cfg) : exA.Frag ∧ exB.Frag ∧ Ty.WF cfg exA ∧ Ty.WF cfg exB ∧ exB.US := by
   refine ⟨?_, ?_, ?_, ?_, ?_⟩ <;> simp [exA, exB, Ty.Frag, Ty.TF, Ty.WF, Ty.US]
 example : exV.OK := Val.OK.array _ (by intro x hx; simp at hx; rcases hx with rfl | rfl | rfl <;> constructor)
-example (cfg : Cfg) : Val.TyOK cfg exV :=
-  Val.TyOK.array _ (by
-    intro x hx; simp at hx
+example (cfg : Cfg) : Val.TyOK cfg exV := by
+  unfold exV
+  exact Val.TyOK.array _ (by simp [exV, I64.max]) (by
+    intro x hx; simp [exV] at hx
     rcases hx with rfl | rfl | rfl
     · constructor
     · constructor
@@ -72,6 +74,14 @@ example (cfg : Cfg) : asg cfg false exA exB = true := by
   simp [exA, exB, asg, asgRecv, asgAllR, asgAnyL, sameNullary, Rng.sub, tupleSize, Rng.exact, isStringFamily]
 example (cfg : Cfg) : inst cfg false exB exV = true := by
   simp [exB, exV, inst, instZip, tupleSize, Rng.exact, Rng.contains, asg, asgRecv, sameNullary]
+
+/-- non-vacuity with the recursive alias: `Data ⊒ Hash[String, Array[Integer]]` and a conforming value -/
+example (cfg : Cfg) :
+    asg cfg false .data (.hash .str (.array (.int Rng.all) Rng.pos) Rng.pos) = true ∧
+    inst cfg false (.hash .str (.array (.int Rng.all) Rng.pos) Rng.pos) (.hash [(.str "k", .array [.int 1])]) = true := by
+  constructor
+  · simp [asg, asgRecv, sameNullary, Rng.sub, Rng.pos, Rng.all, I64.max, I64.min, isStringFamily, floatAll]
+  · simp [inst, instEntries, instAll, Ty.isAny, Rng.contains, Rng.pos, Rng.all, I64.max, I64.min]
 
 /-! ### the full statement fails for Iterable: two known findings, with witnesses -/
 def idCfg : Cfg := { rxMatch := fun _ _ => false, lower := id }
